@@ -9,7 +9,10 @@
 // Only lower bounds are hard checks (lateness is the platform's).
 //
 // stdin (times in microseconds):
-//   case <id> free <duration_us>
+//   case <id> free <min_us> <timeout_us>   the program ends when min_us have passed AND every timer that was added and
+//                                      never the target of a cancel call has run at least once -- or, at the latest,
+//                                      after timeout_us (generous: only a lost timer or a hopelessly slow machine gets
+//                                      there; the quit record says which).  No fixed sleep decides "none lost".
 //   A  <tag> <delay> <iv>              added on the loop thread before loop() starts (iv > 0: runEvery(iv), delay ignored)
 //   FA <tag> <delay> <iv> <at>         added by the foreign thread at t0 + at
 //   FC <tag> <at>                      cancelled by the foreign thread at t0 + at; a marker functor queued behind the
@@ -22,7 +25,7 @@
 //   run <tag> <seq|-1> <t_run> <filed_deadline|-1>
 //   cancel <tag> <t_call> <L|F>        the cancel call returned (L: on the loop thread = processed)
 //   processed <tag> <t>                 the marker behind a foreign cancel ran on the loop thread
-//   quit <t>
+//   quit <t> <done|timeout>
 #include <stdint.h>
 #include <stdio.h>
 #include <stdlib.h>
@@ -61,6 +64,7 @@ static int64_t g_t0 = 0, g_base = 0;
 static std::mutex g_mu;                       // ids + trace
 static std::map<int, TimerId> g_ids;
 static std::map<int, int> g_runs;
+static std::map<int, bool> g_cancelCalled;
 static std::vector<string> g_trace;
 static std::map<int, std::vector<Op> > g_nested;   // cbtag -> ops of its first run
 
@@ -138,6 +142,7 @@ static void onTimer(int tag)
           TimerId v;
           if (idOf(o.tag, &v))
           {
+            { std::lock_guard<std::mutex> lk(g_mu); g_cancelCalled[o.tag] = true; }
             g_loop->cancel(v);
             rec("cancel " + i64(o.tag) + " " + i64(nowUs() - g_t0) + " L");
           }
@@ -149,7 +154,21 @@ static void onTimer(int tag)
 
 static void marker(int tag) { rec("processed " + i64(tag) + " " + i64(nowUs() - g_t0)); }
 
-static void foreignThread(std::vector<Op> ops, int64_t duration)
+static bool g_timedOut = false;
+// every timer that was added and never the target of a cancel call has run at least once
+static bool allRan()
+{
+  std::lock_guard<std::mutex> lk(g_mu);
+  for (std::map<int, TimerId>::const_iterator it = g_ids.begin(); it != g_ids.end(); ++it)
+  {
+    if (g_cancelCalled.count(it->first)) continue;
+    std::map<int, int>::const_iterator r = g_runs.find(it->first);
+    if (r == g_runs.end() || r->second == 0) return false;
+  }
+  return true;
+}
+
+static void foreignThread(std::vector<Op> ops, int64_t duration, int64_t timeout)
 {
   std::sort(ops.begin(), ops.end(), [](const Op& a, const Op& b) { return a.at < b.at; });
   for (size_t i = 0; i < ops.size(); ++i)
@@ -162,6 +181,7 @@ static void foreignThread(std::vector<Op> ops, int64_t duration)
       TimerId v;
       if (idOf(ops[i].tag, &v))
       {
+        { std::lock_guard<std::mutex> lk(g_mu); g_cancelCalled[ops[i].tag] = true; }
         g_loop->cancel(v);
         rec("cancel " + i64(ops[i].tag) + " " + i64(nowUs() - g_t0) + " F");
         g_loop->queueInLoop(std::bind(&marker, ops[i].tag));     // FIFO: runs after the cancel has been processed
@@ -170,6 +190,12 @@ static void foreignThread(std::vector<Op> ops, int64_t duration)
   }
   int64_t w = g_t0 + duration - nowUs();
   if (w > 0) usleep(static_cast<useconds_t>(w));
+  // wait for the timers, not for the clock: a slow or loaded machine only makes this longer
+  while (!allRan())
+  {
+    if (nowUs() - g_t0 > timeout) { g_timedOut = true; break; }
+    usleep(2000);
+  }
   g_loop->quit();
 }
 
@@ -181,7 +207,7 @@ int main()
   Logger::setOutput(nullOutput);
   Logger::setFlush(nullFlush);
   string line, cid;
-  int64_t duration = 0;
+  int64_t duration = 0, timeout = 20000000;
   std::vector<Op> initial, foreign;
   while (std::getline(std::cin, line))
   {
@@ -192,7 +218,9 @@ int main()
     {
       cid = w.size() > 1 ? w[1] : "?";
       duration = w.size() > 3 ? strtoll(w[3].c_str(), NULL, 10) : 300000;
+      timeout = w.size() > 4 ? strtoll(w[4].c_str(), NULL, 10) : 20000000;
       initial.clear(); foreign.clear(); g_nested.clear(); g_ids.clear(); g_runs.clear(); g_trace.clear();
+      g_cancelCalled.clear(); g_timedOut = false;
       continue;
     }
     if (k == "end")
@@ -204,10 +232,10 @@ int main()
       g_base = Timer::numCreated();
       g_t0 = nowUs();
       for (size_t i = 0; i < initial.size(); ++i) doAdd(initial[i].tag, initial[i].delay, initial[i].iv, false);
-      std::thread F(foreignThread, foreign, duration);
+      std::thread F(foreignThread, foreign, duration, timeout);
       loop.loop();
-      rec("quit " + i64(nowUs() - g_t0));
       F.join();
+      rec("quit " + i64(nowUs() - g_t0) + (g_timedOut ? " timeout" : " done"));
       for (size_t i = 0; i < g_trace.size(); ++i) printf("%s\n", g_trace[i].c_str());
       printf("end\n");
       fflush(stdout);
